@@ -502,6 +502,32 @@ def run(report, p):
                     r8.check(not missing, None, n, f"the format table {{{', '.join(keys)}}} in {m.name} has no entry for {missing}: a run in which such a format is looked up fails with None / KeyError although the format is accepted by -h", construct=f"{m.name}: format table without {missing}")
     r8.check(True, None, None, "")
 
+    # ------------------------------------------------------------------ R4.9
+    r9 = report.rule(
+        "R4.9",
+        "who may decide an action: the `action` of a hash entry is assigned only by the entry's constructor, by the session's append methods (the decision table of R4.1), by the "
+        "validator that promotes `new` to `verified` before the write, and by the manifest reader - never by a command after the session has decided (an `original` relabelled "
+        "`verified` leaves the file without any original entry: verify / diff then call it a new file)",
+        4,
+    )
+    allowed_mods = (".generator", ".hashlist", ".hashlist_xml_parser")
+    for fq, f in sorted(p.funcs.items()):
+        if not f.module.name.startswith("ascmhl") or f.module.name in unshipped_modules(p):
+            continue
+        for n in walk_no_nested(f.node):
+            if isinstance(n, (ast.Assign, ast.AugAssign)):
+                tgs = n.targets if isinstance(n, ast.Assign) else [n.target]
+                for t in tgs:
+                    for x in ([t] if not isinstance(t, ast.Tuple) else t.elts):
+                        if isinstance(x, ast.Attribute) and x.attr == "action" and not (isinstance(x.value, ast.Name) and x.value.id == "self" and not f.cls):
+                            r9.instance(f, n, f"{f.qual.split('.')[-1]}: {norm(n)[:50]}")
+                            is_validator = f.module.name.endswith(".history") and any(isinstance(c, ast.Compare) and "'new'" in norm(c).replace('"', "'") and ".action" in norm(c) for c in walk_no_nested(f.node))
+                            ok9 = f.module.name.endswith(allowed_mods) or is_validator
+                            r9.check(ok9, f, n, f"`{norm(n)[:60]}` in {f.qual.split('.')[-1]} overrides the action the session decided: an entry that the decision table made `original` (no earlier record under this path) and that is relabelled afterwards leaves the path without an original entry - the next verify / diff find no reference digest and report the file as new (exit 21), and a changed content is no longer reported as failed", construct=f"{f.name}: action assigned outside the session")
+            elif isinstance(n, ast.Call) and isinstance(n.func, ast.Name) and n.func.id == "setattr" and len(n.args) >= 2 and isinstance(n.args[1], ast.Constant) and n.args[1].value == "action":
+                r9.instance(f, n, norm(n)[:50])
+                r9.check(f.module.name.endswith(allowed_mods), f, n, f"`{norm(n)[:60]}` sets an entry's action outside the session", construct=f"{f.name}: action assigned outside the session")
+
     include_rules(report, p, 'c08', ['R8.8'], 'whether a digest is original / verified / failed / new is decided against the entries of the history that holds the file: lookups are made on the routed history with the routed path')
     include_rules(report, p, 'c03', ['R3.11'], 'a failed check is only recorded if reporting it cannot raise: the mismatch is logged before the generation is written')
     include_rules(report, p, 'c08', ['R8.1'], 'the first recorded value is looked up in the history that owns the path')
